@@ -102,6 +102,8 @@ class UnusedTranslator:
             ):
                 for elem in stm.head.elements:
                     self._add_usage_stm(elem.literal)
+            if stm.ast_type == ASTType.Rule and stm.head.ast_type == ASTType.Literal and stm.head.sign != Sign.NoSign:
+                self._add_usage_stm(stm.head)  # 'not a(X) :- body.' observes a/1, it does not derive it
             if stm.ast_type in (ASTType.ShowSignature, ASTType.ProjectSignature):
                 pred = Predicate(stm.name, stm.arity)
                 self.used.add(pred)
